@@ -3,6 +3,8 @@
 
 #include <pika/semaphore.hpp>
 
+#include <memory>
+
 #include <pika/execution.hpp>
 #include <pika/threading_base/thread_num_tss.hpp>
 
@@ -40,8 +42,7 @@ static Case decode(tape_t const& tape)
     c.elastic = !t.chance(1, 5);
     c.refusal_ec = t.chance(1, 2);
     c.cfg.workers = c.tgt_size + c.ctl_size;
-    std::vector<bool> susp(static_cast<std::size_t>(c.tgt_size), false);
-    int running = c.tgt_size;
+    // pass 1: draw the raw operations (every tape draw happens here, in a fixed order)
     int n = 1 + static_cast<int>(t.below(14));
     for (int i = 0; i < n; ++i)
     {
@@ -52,6 +53,17 @@ static Case decode(tape_t const& tape)
         o.hint = t.chance(1, 2) ? static_cast<int>(t.below(static_cast<std::uint32_t>(c.tgt_size))) : -1;
         o.from_task = t.chance(1, 3);
         o.yielding = t.chance(1, 2);
+        c.ops.push_back(o);
+    }
+    c.nblocked = t.pick({0, 2, 0, 5, 9});    // (drawn last: shorter, older tapes decode to 0)
+    // pass 2: make the history well-formed.  The model of which workers sleep must follow the operations that
+    // are really issued, so every rewrite of an operation happens before the model is advanced over it.
+    std::vector<bool> susp(static_cast<std::size_t>(c.tgt_size), false);
+    int running = c.tgt_size;
+    for (Op& o : c.ops)
+    {
+        // pool-level suspend_direct() waits for the pool to drain (documented): it cannot be combined with tasks that stay blocked
+        if (c.nblocked > 0 && o.k == O_SUSPEND_POOL_RESUME) o.k = O_BURST;
         if (!c.elastic)
         {
             // without elasticity only the refusal probe, bursts and pool-level suspension make sense
@@ -77,13 +89,7 @@ static Case decode(tape_t const& tape)
                 running = c.tgt_size;
             }
         }
-        c.ops.push_back(o);
     }
-    c.nblocked = t.pick({0, 2, 0, 5, 9});    // (drawn last: shorter, older tapes decode to 0)
-    // pool-level suspend_direct() waits for the pool to drain (documented): it cannot be combined with tasks that stay blocked
-    if (c.nblocked > 0)
-        for (auto& o : c.ops)
-            if (o.k == O_SUSPEND_POOL_RESUME) o.k = O_BURST;
     return c;
 }
 
@@ -155,10 +161,10 @@ template <typename F>
 static void issue(World& W, bool from_task, std::string what, F f)
 {
     BoundedCall bc(std::move(what) + (from_task ? " issued from a task of another pool" : " issued from the main OS thread"));
-    if (!from_task) { MainWaiting mw; f(); return; }
+    if (!from_task) { MainWaiting mw("suspend/resume call issued from the main OS thread"); f(); return; }
     std::atomic<int> done{0};
     ex::execute(ex::thread_pool_scheduler{W.ctl}, [&] { f(); done.store(1); });
-    MainWaiting mw;
+    MainWaiting mw("suspend/resume call issued from a controller task");
     while (!done.load()) { struct timespec ts { 0, 100000 }; nanosleep(&ts, nullptr); }
 }
 
@@ -219,7 +225,7 @@ static Outcome run(tape_t const& tape)
         });
     }
     {
-        MainWaiting mw;
+        MainWaiting mw("initial wait for the blocked tasks");
         while (W.blocked_in.load() < c.nblocked) { struct timespec ts { 0, 100000 }; nanosleep(&ts, nullptr); }
         struct timespec ts { 0, 2000000 };
         nanosleep(&ts, nullptr);    // (let them finish suspending)
@@ -323,7 +329,7 @@ static Outcome run(tape_t const& tape)
             burst(W, b);
             long long need = W.submitted.load();
             {
-                MainWaiting mw;
+                MainWaiting mw("wait_progress");
                 double t0 = now_s();
                 while (W.finished.load() < need && now_s() - t0 < 0.05) { struct timespec ts { 0, 100000 }; nanosleep(&ts, nullptr); }
             }
@@ -333,16 +339,19 @@ static Outcome run(tape_t const& tape)
         case O_REFUSAL_SELF_SUSPEND:
         {
             // a task of the target pool asks its own pool to suspend: must be refused, pool keeps running
-            std::atomic<int> res{0};
+            // (the result cell is shared, not a local captured by reference: the wait below is bounded, and a task that
+            // starts later than that must not write into a dead stack frame)
+            auto resp = std::make_shared<std::atomic<int>>(0);
+            std::atomic<int>& res = *resp;
             W.submitted.fetch_add(1);
-            ex::execute(ex::thread_pool_scheduler{W.tgt}, [&] {
+            ex::execute(ex::thread_pool_scheduler{W.tgt}, [&W, resp] {
                 W.entered.fetch_add(1);
-                try { W.tgt->suspend_direct(); res.store(2); }
-                catch (pika::exception const&) { res.store(1); }
+                try { W.tgt->suspend_direct(); resp->store(2); }
+                catch (pika::exception const&) { resp->store(1); }
                 W.finished.fetch_add(1);
             });
             {
-                MainWaiting mw;
+                MainWaiting mw("self-suspend probe");
                 double t0 = now_s();
                 while (!res.load() && now_s() - t0 < 20.0) { struct timespec ts { 0, 100000 }; nanosleep(&ts, nullptr); }
             }
@@ -373,7 +382,7 @@ static Outcome run(tape_t const& tape)
         }
         G().awaited_signal_missing = nullptr;
         {
-            MainWaiting mw;
+            MainWaiting mw("pika::wait()");
             pika::wait();
         }
         if (W.entered.load() != W.submitted.load() || W.finished.load() != W.submitted.load())
